@@ -91,6 +91,9 @@ def handle : Handler
   | "alias_tdiv_q_ui", args => runU (div_q_ui 0) args
   | "alias_fdiv_q_ui", args => runU (div_q_ui (-1)) args
   | "alias_cdiv_q_ui", args => runU (div_q_ui 1) args
+  | "alias_divexact_ui", [.num w, .num u, .num d, .num v0, .num v1, .num v2, .num v3] => do
+    let w ← idx w; let u ← idx u
+    if d ≤ 0 ∨ d ≥ B then none else answer (divexact_ui w u d.toNat (ofInts [v0, v1, v2, v3]))
   | "alias_tdiv_r_ui", args => runU (div_r_ui 0) args
   | "alias_fdiv_r_ui", args => runU (div_r_ui (-1)) args
   | "alias_cdiv_r_ui", args => runU (div_r_ui 1) args
